@@ -96,6 +96,12 @@ def corrupt(plugin, res, kind, start, end, dt):
     REACHED["n"] += 1
     if kind == "dtype_bare":
         return to_bad(res)
+    if kind == "dtype_bare_empty":
+        # "found nothing" answered with an empty array of another dtype
+        return to_bad(res[:0])
+    if kind == "dtype_chunk_empty":
+        bad = to_bad(res[:0])
+        return direct_chunk(plugin, bad, start, end, dt, dtype=bad.dtype)
     if kind == "dtype_chunk":
         bad = to_bad(res)
         return direct_chunk(plugin, bad, start, end, dt, dtype=bad.dtype)
@@ -325,6 +331,8 @@ def make_plugins(case):
                 REACHED["n"] += 1
                 if vk == "dtype_bare":
                     return to_bad(good_arr([(int(t), int(e), 1) for t, e in zip(r["time"], r["endtime"])]))
+                if vk == "dtype_bare_empty":
+                    return to_bad(good_arr([]))
                 if vk == "late_row":
                     if not len(r):
                         r = np.zeros(1, dtype=r.dtype)
@@ -356,16 +364,16 @@ def make_plugins(case):
 
 
 APPLICABLE = {
-    "source": ["dtype_chunk", "dtype_chunk_declared", "dtype_selfchunk", "dtype_shape_chunk", "late_row", "late_row_inner", "early_row", "label", "gap", "overlap",
+    "source": ["dtype_chunk", "dtype_chunk_empty", "dtype_chunk_declared", "dtype_selfchunk", "dtype_shape_chunk", "late_row", "late_row_inner", "early_row", "label", "gap", "overlap",
                "gap_zero", "overlap_zero"],
-    "ordinary": ["dtype_bare", "dtype_chunk", "dtype_chunk_declared", "dtype_selfchunk", "dtype_shape", "dtype_shape_chunk", "late_row", "late_row_inner", "early_row", "label"],
-    "multi": ["dtype_bare", "dtype_chunk", "dtype_chunk_declared", "dtype_shape", "late_row", "late_row_inner", "label", "nondict",
+    "ordinary": ["dtype_bare", "dtype_bare_empty", "dtype_chunk_empty", "dtype_chunk", "dtype_chunk_declared", "dtype_selfchunk", "dtype_shape", "dtype_shape_chunk", "late_row", "late_row_inner", "early_row", "label"],
+    "multi": ["dtype_bare", "dtype_bare_empty", "dtype_chunk", "dtype_chunk_declared", "dtype_shape", "late_row", "late_row_inner", "label", "nondict",
               "sibling_label", "sibling_chunk"],
     "down": ["dtype_chunk", "dtype_chunk_declared", "dtype_selfchunk", "label", "late_row", "late_row_inner", "gap", "overlap", "nongen", "nonchunk",
              "gap_zero", "overlap_zero"],
-    "loop": ["dtype_bare", "late_row", "late_row_inner", "early_row", "dtype_chunk_declared"],
-    "cut": ["dtype_bare", "late_row"],
-    "window": ["dtype_bare", "late_row", "late_row_inner", "dtype_chunk_declared"],
+    "loop": ["dtype_bare", "dtype_bare_empty", "late_row", "late_row_inner", "early_row", "dtype_chunk_declared"],
+    "cut": ["dtype_bare", "dtype_bare_empty", "late_row"],
+    "window": ["dtype_bare", "dtype_bare_empty", "late_row", "late_row_inner", "dtype_chunk_declared"],
 }
 
 
